@@ -259,9 +259,9 @@ V("dom_logtwo", ["I"], lambda x: abs(x).bit_length() - 1 if x != 0 else None)
 
 # ------------------------------------------------------------------ pow (exponent >= 0)
 for t in WT:
-    V("pow3_" + t, ["Is", "e_" + t], lambda n, l: n**l)
-    V("pow_" + t, ["Is", "e_" + t], lambda n, l: n**l)
-    V("dom_pow_" + t, ["Is", "e_" + t], lambda n, l: n**l, margs=lambda n, l: [0, n, l])
+    V("pow3_" + t, ["Is", "e_" + t], lambda n, l: n**abs(l))
+    V("pow_" + t, ["Is", "e_" + t], lambda n, l: n**abs(l))
+    V("dom_pow_" + t, ["Is", "e_" + t], lambda n, l: n**abs(l), margs=lambda n, l: [0, n, l])
 
 
 def fix_pow(rng, a):
@@ -471,6 +471,8 @@ V("root", ["I", "rt_u32"], o_root, fix=fix_root)
 
 # ------------------------------------------------------------------ misc: specification oracle only (no model)
 def o_logp(a, p):
+    if p < 2:
+        return "THROWS"      # no logarithm for a base < 2: the call must return (by raising), frag/C01.fix-6.diff
     k, q = 0, p
     while q <= a:
         q *= p; k += 1
@@ -491,12 +493,17 @@ def fix_logp(rng, a):
     return [x, p]
 
 
-forms("logp", ["dom"], ["N", "N"], o_logp, fix=fix_logp)
+k_logp = lambda a, p: "p in {-1,0,1}: does not return" if p in (-1, 0, 1) else "other"
+forms("logp", ["dom"], ["N", "N"], o_logp, fix=fix_logp, site="logp(const Integer&,const Integer&)", klass=k_logp,
+      probes=[[5, 1], [7, 0], [3, -1]])
+VARIANTS["logp@dom"]["probes"] = [[2**64, 1]]
 V("fact", ["fa_u64"], lambda l: math.factorial(l), oracle_only=True)
 V("swap", ["I", "I"], lambda a, b: [b, a], oracle_only=True)
 
 
 def o_pp(P, Q):
+    if P == 0:
+        return 0             # the call must return; 0 is the fixed point of the loop (frag/C01.fix-5.diff)
     U, W = P, math.gcd(P, Q)
     while W != 1:
         U = tq(U, W); W = math.gcd(U, W)
@@ -517,7 +524,12 @@ def fix_pp(rng, a):
     return [P if P else 1, Q]
 
 
-V("pp", ["I", "I"], o_pp, fix=fix_pp)
+V("pp", ["I", "I"], o_pp, fix=fix_pp, site="pp(const Integer&,const Integer&)",
+  klass=lambda P, Q: "P=0,|Q|>=2: does not return" if P == 0 and abs(Q) >= 2 else "other",
+  probes=[[0, 5], [0, -2], [0, 2**64]])
+# bodies for which a repair is pending: model name -> (file, signature, sha of the repaired body, model of the repaired body)
+FIXED_BODIES["pp"] = ("src/kernel/gmp++/gmp++_int_gcd.C", "Integer pp( const Integer& P, const Integer& Q )", "0c8bebf2665f", "pp_fixed")
+FIXED_BODIES["logp"] = ("src/kernel/gmp++/gmp++_int_misc.C", "int64_t logp(const Integer& a, const Integer& p)", "3ed29b452ccb", "logp_fixed")
 
 
 def o_perfect(a):
